@@ -77,6 +77,51 @@ Theorem C09_judge_predicate : forall (hash_hdr : header -> N) (root : list N -> 
 Proof. exact judge_predicate_all. Qed.
 Print Assumptions C09_judge_predicate.
 
+(** * Both store kinds.  A storage batch is applied in program order by leveldb_type "normal"
+    and "all Puts, then all Deletes" by "multi"; they agree whenever no key is both put and
+    deleted in the batch; every batch the (repaired) chain ledger builds is of that kind (the
+    persist batch is all Puts, a rollback batch all Deletes plus ONE operation on chain-meta);
+    hence every step, every run and every theorem above holds for both kinds *)
+Theorem C09_batch_store_kinds_agree : forall (V : Type) (ops : list (kvop V)), conflict_free ops ->
+  forall m k, nlookup k (apply_kind false ops m) = nlookup k (apply_kind true ops m).
+Proof. exact (@apply_kind_conflict_free). Qed.
+Print Assumptions C09_batch_store_kinds_agree.
+Theorem C09_persist_batch_all_puts : forall ord c e ix,
+  let b := e_blk e in let num := h_number (b_hdr b) in
+  persist_index c e ix =
+  mkIx (apply_kind ord [KPut (b_hash b) num] (ix_bhash ix))
+       (apply_kind ord [KPut num (b_hash b)] (ix_height ix))
+       (apply_kind ord [KPut num (b_txs b)] (ix_txset ix))
+       (apply_kind ord (txmeta_puts num (b_hash b) 0 (b_txs b)) (ix_txmeta ix))
+       (Some (new_meta c e)).
+Proof. exact persist_batch_any_store. Qed.
+Print Assumptions C09_persist_batch_all_puts.
+Theorem C09_rollback_batch_all_deletes : forall ord cfg ix0 i bf ixb cnt bf' ixb' cnt',
+  remove_on_block cfg ix0 i (bf, ixb, cnt) = Some (bf', ixb', cnt') ->
+  exists bh txs,
+    ixb' = mkIx (apply_kind ord [KDel bh] (ix_bhash ixb))
+                (if d_rb_heightkey cfg then ix_height ixb else apply_kind ord [KDel i] (ix_height ixb))
+                (apply_kind ord [KDel i] (ix_txset ixb))
+                (apply_kind ord (txmeta_dels txs) (ix_txmeta ixb))
+                (ix_meta ixb).
+Proof. exact rollback_block_batch_any_store. Qed.
+Print Assumptions C09_rollback_batch_all_deletes.
+Theorem C09_meta_batch_conflict_free : forall cfg t m, d_meta_del_first cfg = false -> conflict_free (meta_ops cfg t m).
+Proof. exact meta_ops_conflict_free. Qed.
+Print Assumptions C09_meta_batch_conflict_free.
+Theorem C09_store_kind_irrelevant : forall cfg full o s, d_meta_del_first cfg = false ->
+  step (with_store false cfg) full o s = step (with_store true cfg) full o s.
+Proof. exact store_kind_irrelevant. Qed.
+Print Assumptions C09_store_kind_irrelevant.
+Theorem C09_lookups_multi_store : forall (hash_hdr : header -> N) (root : list N -> N),
+  (forall a b, hash_hdr a = hash_hdr b -> a = b) ->
+  forall full ops U, hist_wf hash_hdr root full ops cl_empty [] ->
+  observe cfg_fixed_multi U (run cfg_fixed_multi full ops cl_empty) = expected U (spec_of full ops).
+Proof.
+  intros hh rt Hi full ops U H. rewrite run_store_kind_irrelevant. exact (lookups_all hh rt Hi full ops U H).
+Qed.
+Print Assumptions C09_lookups_multi_store.
+
 (** reflection: the boolean predicates are the propositions *)
 Theorem C09_agrees_reflect : forall U sp o, agrees_b U sp o = true <-> agrees U sp o.
 Proof. exact agrees_b_spec. Qed.
@@ -137,7 +182,7 @@ Proof. split; [apply hist_wf_b_spec; vm_compute; reflexivity|]. vm_compute. repe
 
 (** block-height-<h> survives a rollback: after Rollback(2) GetBlockHash(3) still answers *)
 Theorem C09_rb_heightkey_refuted :
-  let cfg := {| d_rb_heightkey := true; d_bhash_codec := false |} in
+  let cfg := {| d_rb_heightkey := true; d_bhash_codec := false; d_meta_del_first := false; c_ordered := true |} in
   let ops := [OPersist ex_e1; OPersist ex_e2; OPersist ex_e3; ORollback 2] in
   get_block_hash cfg (run cfg false ops cl_empty) 3 = b_hash (e_blk ex_e3) /\
   prop_trace toy_hash toy_root false ex_U ops (trace_of cfg false ex_U ops cl_empty) [] true 0 = V_propfalse 3.
@@ -146,12 +191,28 @@ Print Assumptions C09_rb_heightkey_refuted.
 
 (** GetBlockHash reads the stored hex string as raw bytes: the value is never the block's hash *)
 Theorem C09_bhash_codec_refuted :
-  let cfg := {| d_rb_heightkey := false; d_bhash_codec := true |} in
+  let cfg := {| d_rb_heightkey := false; d_bhash_codec := true; d_meta_del_first := false; c_ordered := true |} in
   let ops := [OPersist ex_e1] in
   get_block_hash cfg (run cfg false ops cl_empty) 1 <> b_hash (e_blk ex_e1) /\
   prop_trace toy_hash toy_root false ex_U ops (trace_of cfg false ex_U ops cl_empty) [] true 0 = V_propfalse 0.
 Proof. vm_compute. split; [discriminate|reflexivity]. Qed.
 Print Assumptions C09_bhash_codec_refuted.
+
+(** what the store kind does to a batch that deletes chain-meta and puts it again (NOT the
+    pinned code; the pattern of seeded/C09c): on the ordered store nothing changes, on the
+    multi-layer store the stored chain meta is erased while the cached one stays right; a
+    restart then reports height 0 *)
+Theorem C09_meta_del_put_multi_refuted :
+  let cfgm := {| d_rb_heightkey := false; d_bhash_codec := false; d_meta_del_first := true; c_ordered := false |} in
+  let cfgo := {| d_rb_heightkey := false; d_bhash_codec := false; d_meta_del_first := true; c_ordered := true |} in
+  let ops := [OPersist ex_e1; OPersist ex_e2; ORollback 1] in
+  o_stored (observe cfgo ex_U (run cfgo false ops cl_empty)) = mkMeta 1 (b_hash (e_blk ex_e1)) 2 /\
+  o_meta (observe cfgm ex_U (run cfgm false ops cl_empty)) = mkMeta 1 (b_hash (e_blk ex_e1)) 2 /\
+  o_stored (observe cfgm ex_U (run cfgm false ops cl_empty)) = meta0 /\
+  cm_height (get_chain_meta (run cfgm false (ops ++ [OReopen]) cl_empty)) = 0 /\
+  prop_trace toy_hash toy_root false ex_U ops (trace_of cfgm false ex_U ops cl_empty) [] true 0 = V_propfalse 2.
+Proof. vm_compute. repeat split; reflexivity. Qed.
+Print Assumptions C09_meta_del_put_multi_refuted.
 
 (** a transaction hash in two live blocks: rolling back the later block deletes the tx-meta
     key, so the earlier occurrence is no longer found (flags off: this is the behaviour that
